@@ -242,7 +242,7 @@ theorem gumbel_fits_terminate (f : ℝ → ℝ × ℝ) (variance : ℝ) (b : Boo
 
 /-! ## The conjugate-gradient fits (model `Minimizer.lean` + `FitCG.lean`, compared with the C code on every run)
 
-For these routines the property is claimed as: always a documented status, the location is the smallest observation, and a
+(Also modelled and compared: the gamma generalized-Newton fits and the count-histogram fits.) For these routines the property is claimed as: always a documented status, the location is the smallest observation, and a
 return of eslOK means the optimiser's stopping rule held. That the point reached is the global likelihood maximiser is NOT a
 theorem (monitored on the implementation: local pattern search + recovery on exact quantile grids). -/
 
@@ -277,6 +277,21 @@ theorem truncated_gumbel_fit_post {α : Type} [Num α] (xs : Array α) (phi : α
     (st = .ok ∨ st = .einval ∨ st = .enoresult ∨ st = .erange) ∧ ps.size = 2 ∧ (st ≠ .ok → ps = #[Num.zero, Num.zero]) ∧
     (st = .ok → (tevdCG xs phi).2 = .converged ∨ (tevdCG xs phi).2 = .zeroDirection ∨ (tevdCG xs phi).2 = .zeroGradient) :=
   gumbelFitTruncated_post xs phi st ps h
+
+/-- `esl_wei_FitCompleteBinned`: documented status, documented location (`xmin`, or `LBound(imin)` for rounded data). -/
+theorem weibull_binned_fit_post {α : Type} [Num α] (h : Hist α) (st : St) (ps : Array α) (hr : weiFitCompleteBinned h = .res st ps) :
+    (st = .ok ∨ st = .enohalt ∨ st = .erange ∨ st = .enoresult) ∧ ps.size = 3 ∧
+    ps.getD 0 Num.zero = (if h.isRounded then h.lbound h.imin else h.xmin) :=
+  weiFitBinned_post h st ps hr
+
+/-- the gamma fits (`esl_gam_FitComplete`, `esl_gam_FitCountHistogram` via `gam_fitting_engine`, generalized Newton): at most 100 rounds
+    (total), status in {eslOK, eslENOHALT, eslERANGE}; eslOK ⇒ `(lambda, tau) = (tau/xbar, tau)` and both stopping tests
+    `esl_DCompare(old_tau, tau, 1e-6, 1e-6)`, `esl_DCompare(old_fx, fx, 1e-6, 1e-6)` held. -/
+theorem gamma_engine_post {α : Type} [Num α] (xbar logxbar : α) (st : St) (ps : Array α) (h : gamFittingEngine xbar logxbar = .res st ps) :
+    (st = .ok ∨ st = .enohalt ∨ st = .erange) ∧ ps.size = 2 ∧
+    (st = .ok → ∃ tau oldtau fx oldfx : α, ps = #[tau / xbar, tau] ∧ dcompare oldtau tau (1e-6 : α) (1e-6 : α) = true ∧
+        dcompare oldfx fx (1e-6 : α) (1e-6 : α) = true) :=
+  gamFittingEngine_post xbar logxbar st ps h
 
 /-- over ℝ, `esl_vec_DMin` is the smallest observation (non-empty data) -/
 theorem cg_fit_location_is_minimum (xs : Array ℝ) (hn : 0 < xs.size) : vmin xs ∈ xs.toList ∧ ∀ x ∈ xs.toList, vmin xs ≤ x := by
